@@ -30,6 +30,19 @@ def rule_drop_resumes(ctx, R="C03/drop-resumes"):
     o = Origin(b)
     res = [bi for bi, t in b.calls(lambda c: c.is_(PD + "::resume_threads"))]
     con = [bi for bi, t in b.calls(lambda c: c.is_(PD + "::continue_process"))]
+    if not res:
+        # the same thing spelled out: a loop in Drop itself that detaches thread by thread (`for t in &self.threads { resume_thread(t.tid) }`)
+        for h, body in b.loops().items():
+            if any(b.term(x)["k"] == "call" and CalleeView(b.term(x)["callee"]).is_(PD + "::resume_thread", DETACH) for x in body):
+                res = [h]
+    if not res:
+        # ... or as `self.threads.iter().for_each(|t| { resume_thread(t.tid) })`: for_each is a consumer, its closure runs for every element
+        for bi, t in b.calls(lambda c: (c.short or "") == "std::iter::Iterator::for_each"):
+            cls = [q for q in walk(o.call_args(bi)[1]) if q[0] == "closure"]
+            for q in cls:
+                for cb_ in ctx.prog.by_short.get(q[1], ()):
+                    if any(True for _x, _t in cb_.calls(lambda c: c.is_(PD + "::resume_thread", DETACH))):
+                        res = [bi]
     ctx.floor(R, "resume_threads call in Drop", len(res), 1)
     ctx.floor(R, "continue_process call in Drop", len(con), 1)
     if not res or not con:
@@ -41,6 +54,8 @@ def rule_drop_resumes(ctx, R="C03/drop-resumes"):
     ctx.check(w is None, R, "always-continues", b.where(con[0]), "Drop sends SIGCONT on every path", "a path through Drop skips continue_process", detail={"path": w})
     ctx.check(all(b.dominates(r, c) for r in res for c in con), R, "order", b.where(con[0]), "threads are detached before the process is continued", "continue_process can run before resume_threads")
     for bi in res + con:
+        if b.term(bi)["k"] != "call" or not CalleeView(b.term(bi)["callee"]).is_(PD + "::resume_threads", PD + "::continue_process"):
+            continue
         a0 = o.call_args(bi)[0]
         ctx.check(root(strip(a0)) == ("param", 1), R, ("self", b.term(bi)["callee"]["def"].split("::")[-1]), b.where(bi), "called on self", "not called on self: %s" % show(a0))
     # continue_process: kill(self.pid, SIGCONT)
@@ -60,6 +75,48 @@ def rule_drop_resumes(ctx, R="C03/drop-resumes"):
                 if s[0] == "agg" and s[1].endswith("signal::Signal") and s[2] == "SIGCONT":
                     sig_v = 18
             ctx.check(pid_ok and sig_v == 18, R, "sigcont-to-pid", cb.where(bi), "continue_process sends SIGCONT (18) to self.pid", "continue_process sends %s to %s" % (show(sig), show(a[0])))
+
+
+LAZY_ADAPTORS = {"map", "filter", "filter_map", "inspect", "take_while", "skip_while", "map_while", "flat_map", "scan", "zip", "chain", "enumerate",
+                 "peekable", "rev", "skip", "take", "step_by", "cloned", "copied"}
+
+
+def rule_lazy_consumed(ctx, R="C03/lazy-effects-consumed"):
+    """an iterator adaptor does nothing until something pulls from it.  Every `Iterator::map/filter/inspect/...` call of the crate hands
+    its result to something (another adaptor, a consumer, a `for`, the caller); a result that is only dropped — `let _ =
+    self.threads.iter().map(|t| Self::resume_thread(t.tid));` — means the closure, and with it the detach / push / write it performs,
+    never runs (rustc's unused_must_use is silenced by `let _ =`)."""
+    import json
+    n = 0
+    for b in ctx.prog.bodies:
+        if "::test" in b.short or b.short.startswith("bin::"):
+            continue
+        for bi, t in b.calls():
+            cv = CalleeView(t["callee"])
+            sh = cv.short or ""
+            if not (sh.startswith("std::iter::Iterator::") and sh.split("::")[-1] in LAZY_ADAPTORS and t.get("dest") and not t["dest"]["proj"]):
+                continue
+            n += 1
+            l = t["dest"]["l"]
+            used = l == 0
+            pat1, pat2 = '"l": %d,' % l, '"l": %d}' % l
+            for blk in b.blocks:
+                if used:
+                    break
+                for st in blk["stmts"]:
+                    if st["k"] == "assign":
+                        js = json.dumps(st["r"])
+                        if pat1 in js or pat2 in js:
+                            used = True
+                tt = blk["term"]
+                if tt["k"] == "call":
+                    for a in tt["args"]:
+                        if isinstance(a, dict) and a.get("k") in ("copy", "move") and a["p"]["l"] == l:
+                            used = True
+            ctx.check(used, R, (b.short.split("::{closure")[0].split("::")[-1], sh.split("::")[-1]), b.where(bi), "the adaptor's result is consumed",
+                      "the result of %s() in %s is never pulled from (it is only dropped): its closure never runs, whatever it was meant to do — detach a thread, record an error, write a record — does not happen" % (sh.split("::")[-1], b.short),
+                      nontrivial=False)
+    ctx.floor(R, "lazy iterator adaptors in the crate", n, 10)
 
 
 def dumper_locals(b):
@@ -597,6 +654,7 @@ def rule_resume_before_return(ctx):
 
 def run(ctx):
     rule_drop_resumes(ctx)
+    rule_lazy_consumed(ctx)
     rule_dumper_dropped(ctx)
     rule_resume_all(ctx)
     rule_attach_detach(ctx)
